@@ -7,8 +7,9 @@
   parameters; every theorem holds for ALL instantiations unless a contract is stated.
 
   `PathOk p`  : `p` is non-empty and no dotted component ends in an index group (key-only path).
-  Theorems named `…_partial` cover key-only target paths; the full statements (targets that
-  are list items, e.g. `a.l[1]`) are kept in comments.
+  "What Lookup finds at the target afterwards" is proved for EVERY non-empty path, list-item
+  components (`a.l[1]`) included.  Only the frame theorem is `…_partial`: it covers key-only
+  paths (`PathOk`); its full statement is kept in a comment.
 -/
 import YtkProofs.PipelineData
 
@@ -34,14 +35,13 @@ theorem set_default_is_merge (data : AMap Node) (payload : Option (AMap Node)) (
     setOp mergeC data payload path none = setOp mergeC data payload path (some "merge") := by
   cases payload <;> simp [setOp]
 
-/- Full statement (not proved for paths with list-item components):
-   `∀ path ≠ "", path-safe → setOp … (some "replace") = .ok d' ∧ lookup d' path = some (.cont payload)`. -/
-/-- replace places the payload at the path, whatever was there. -/
-theorem set_replace_lookup_partial (data payload : AMap Node) (path : String) (h : PathOk path) :
+/-- replace places the payload at the path, whatever was there — for every non-empty path,
+    list-item components (`a.l[1]`) included. -/
+theorem set_replace_lookup (data payload : AMap Node) (path : String) (h : path ≠ "") :
     ∃ d', setOp mergeC data (some payload) path (some "replace") = .ok d' ∧
       lookup d' path = some (.cont payload) := by
-  refine ⟨addValueAt data path (.cont payload), ?_, lookup_addValueAt_self _ _ h⟩
-  simp [setOp, setReplace, h.1]
+  refine ⟨addValueAt data path (.cont payload), ?_, lookup_addValueAt_self' _ _ h⟩
+  simp [setOp, setReplace, h]
 
 /-- merge at a path: an existing container there is merged with the payload (`mergeC`),
     anything else (absent, leaf, list) is replaced — as a closed form of the result … -/
@@ -53,20 +53,20 @@ theorem set_merge_spec (data payload : AMap Node) (path : String) (hp : path ≠
   simp only [setOp, Option.getD_some, if_true, setMerge, if_pos hp]
   split <;> simp_all
 
-/-- … and as what Lookup finds afterwards (key-only paths). -/
-theorem set_merge_lookup_partial (data payload : AMap Node) (path : String) (h : PathOk path) :
+/-- … and as what Lookup finds afterwards (every non-empty path). -/
+theorem set_merge_lookup (data payload : AMap Node) (path : String) (h : path ≠ "") :
     ∃ d', setOp mergeC data (some payload) path (some "merge") = .ok d' ∧
       lookup d' path = some (.cont (match lookup data path with
         | some (.cont dest) => mergeC dest payload
         | _ => payload)) := by
-  rw [set_merge_spec mergeC data payload path h.1]
+  rw [set_merge_spec mergeC data payload path h]
   cases hl : lookup data path with
-  | none => exact ⟨_, rfl, lookup_addValueAt_self _ _ h⟩
+  | none => exact ⟨_, rfl, lookup_addValueAt_self' _ _ h⟩
   | some n =>
     cases n with
-    | cont dest => exact ⟨_, rfl, lookup_addValueAt_self _ _ h⟩
-    | leaf v => exact ⟨_, rfl, lookup_addValueAt_self _ _ h⟩
-    | list xs => exact ⟨_, rfl, lookup_addValueAt_self _ _ h⟩
+    | cont dest => exact ⟨_, rfl, lookup_addValueAt_self' _ _ h⟩
+    | leaf v => exact ⟨_, rfl, lookup_addValueAt_self' _ _ h⟩
+    | list xs => exact ⟨_, rfl, lookup_addValueAt_self' _ _ h⟩
 
 /-- empty path: the per-key rule at the root (closed form: `setMergeRoot` / `setReplaceRoot`
     visit the payload's entries; one step of each is the documented rule). -/
@@ -76,16 +76,34 @@ theorem set_root_merge (data payload : AMap Node) :
 
 theorem set_root_merge_step (orig : AMap Node) (k : String) (v : Node) (rest : List (String × Node)) :
     setMergeRoot mergeC orig ((k, v) :: rest) =
-      setMergeRoot mergeC
-        (match child orig k, v with
-          | some (.cont oc), .cont vc => add orig k (.cont (mergeC oc vc))
-          | _, _ => add orig k v) rest := by
-  simp only [setMergeRoot]
-  split <;> simp_all
+      setMergeRoot mergeC (add orig k (mergeOrReplace mergeC (child orig k) v)) rest := rfl
 
 theorem set_root_replace (data payload : AMap Node) :
     setOp mergeC data (some payload) "" (some "replace") = .ok (setReplaceRoot data payload) := by
   simp [setOp, setReplace]
+
+/-- empty path, merge: the per-key rule at the root as what is found afterwards — every key of
+    the payload holds the merge (both containers) or the payload's value, every other key of the
+    document is untouched.  (Payload keys: distinct, no trailing index group — a Go map built by
+    FromMap from path-safe keys.) -/
+theorem set_root_merge_lookup (data payload d' : AMap Node)
+    (hk : ∀ p ∈ payload, hasIdxSuffix p.1 = false) (hd : payload.Pairwise (fun p p' => p.1 ≠ p'.1))
+    (h : setOp mergeC data (some payload) "" (some "merge") = .ok d') :
+    (∀ p ∈ payload, AMap.get? d' p.1 = some (mergeOrReplace mergeC (AMap.get? data p.1) p.2)) ∧
+    (∀ k, (∀ p ∈ payload, p.1 ≠ k) → AMap.get? d' k = AMap.get? data k) := by
+  rw [set_root_merge] at h
+  cases h
+  exact setMergeRoot_spec mergeC payload data hk hd
+
+/-- empty path, replace: every key of the payload holds the payload's value, the rest is untouched -/
+theorem set_root_replace_lookup (data payload d' : AMap Node)
+    (hk : ∀ p ∈ payload, KeyPlain p.1) (hd : payload.Pairwise (fun p p' => p.1 ≠ p'.1))
+    (h : setOp mergeC data (some payload) "" (some "replace") = .ok d') :
+    (∀ p ∈ payload, AMap.get? d' p.1 = some p.2) ∧
+    (∀ k, (∀ p ∈ payload, p.1 ≠ k) → AMap.get? d' k = AMap.get? data k) := by
+  rw [set_root_replace] at h
+  cases h
+  exact setReplaceRoot_spec payload data hk hd
 
 /- Full statement: every path that is not under the target and not on the way to it, including
    paths through list items, is unchanged. -/
@@ -129,30 +147,30 @@ theorem set_ok_iff (data : AMap Node) (payload : Option (AMap Node)) (path : Str
 /-! ## TemplateOp -/
 
 /-- the rendered text (trimmed when asked) is stored as a string leaf at the path -/
-theorem template_stores_text_partial (render : String → Option String) (lenient trimFn : String → String)
+theorem template_stores_text (render : String → Option String) (lenient trimFn : String → String)
     (yp : String → Option (Option YNode)) (t : TemplateSpec) (data : AMap Node) (text : String)
     (ht : t.template ≠ "") (hp : t.path ≠ "") (hmode : t.parseAs = none ∨ t.parseAs = some "none")
-    (hr : render t.template = some text) (hpath : PathOk (lenient t.path)) :
+    (hr : render t.template = some text) (hpath : lenient t.path ≠ "") :
     let val := if t.trim then trimFn text else text
     (templateOp render lenient trimFn yp t data).2 = false ∧
       lookup (templateOp render lenient trimFn yp t data).1 (lenient t.path) = some (.leaf ⟨"string", val⟩) := by
   rcases hmode with hm | hm <;>
-    simp [templateOp, ht, hp, hm, hr, lookup_addValueAt_self _ _ hpath]
+    simp [templateOp, ht, hp, hm, hr, lookup_addValueAt_self' _ _ hpath]
 
 /-- parseAs yaml: the YAML parse of the text (every scalar a string leaf; the empty document a
     null leaf) is stored at the path -/
-theorem template_stores_yaml_partial (render : String → Option String) (lenient trimFn : String → String)
+theorem template_stores_yaml (render : String → Option String) (lenient trimFn : String → String)
     (yp : String → Option (Option YNode)) (t : TemplateSpec) (data : AMap Node) (yn : Option YNode)
     (ht : t.template ≠ "") (hp : t.path ≠ "") (hmode : t.parseAs = some "yaml")
     (hy : yp (if t.trim then trimFn ((render t.template).getD "") else (render t.template).getD "") = some yn)
-    (hpath : PathOk (lenient t.path)) :
+    (hpath : lenient t.path ≠ "") :
     (templateOp render lenient trimFn yp t data).2 = false ∧
       lookup (templateOp render lenient trimFn yp t data).1 (lenient t.path) =
         some (yamlResult yn) := by
   simp only [templateOp, if_neg ht, if_neg hp, hmode, Option.getD_some, if_true, hy]
   refine ⟨?_, ?_⟩
   · first | rfl | trivial
-  · exact lookup_addValueAt_self _ _ hpath
+  · exact lookup_addValueAt_self' _ _ hpath
 
 /-- TemplateOp never stores anything but a proper node: in particular the empty YAML document
     becomes the null leaf (D27) -/
@@ -207,21 +225,21 @@ theorem patchArgs_value {P : Type} (parsePath : String → Option P) (lenient : 
 /-! ## ImportOp -/
 
 /-- text mode (also the default, empty, mode) stores exactly the file content -/
-theorem import_text_exact_partial (cd : Codecs) (lenient : String → String) (bytes : List Nat)
-    (mode path : String) (data : AMap Node) (hm : mode = "" ∨ mode = "text") (hp : PathOk (lenient path)) :
+theorem import_text_exact (cd : Codecs) (lenient : String → String) (bytes : List Nat)
+    (mode path : String) (data : AMap Node) (hm : mode = "" ∨ mode = "text") (hp : lenient path ≠ "") :
     (importOp cd lenient (some bytes) mode path data).2 = false ∧
       lookup (importOp cd lenient (some bytes) mode path data).1 (lenient path) =
         some (.leaf ⟨"string", cd.text bytes⟩) := by
   rcases hm with hm | hm <;>
-    simp [importOp, toValue, hm, hp.1, lookup_addValueAt_self _ _ hp]
+    simp [importOp, toValue, hm, hp, lookup_addValueAt_self' _ _ hp]
 
 /-- binary mode stores the standard base64 of the content -/
-theorem import_binary_b64_partial (cd : Codecs) (lenient : String → String) (bytes : List Nat)
-    (path : String) (data : AMap Node) (hp : PathOk (lenient path)) :
+theorem import_binary_b64 (cd : Codecs) (lenient : String → String) (bytes : List Nat)
+    (path : String) (data : AMap Node) (hp : lenient path ≠ "") :
     (importOp cd lenient (some bytes) "binary" path data).2 = false ∧
       lookup (importOp cd lenient (some bytes) "binary" path data).1 (lenient path) =
         some (.leaf ⟨"string", String.ofList (b64Encode bytes)⟩) := by
-  simp [importOp, toValue, hp.1, lookup_addValueAt_self _ _ hp]
+  simp [importOp, toValue, hp, lookup_addValueAt_self' _ _ hp]
 
 /-- `b64Encode` on the RFC 4648 section 10 test vectors -/
 theorem b64_rfc4648_vectors :
@@ -242,6 +260,38 @@ theorem import_errors (cd : Codecs) (lenient : String → String) (mode path : S
   refine ⟨rfl, ?_, ?_⟩
   · intro bytes h; simp [importOp, h]
   · intro bytes v h hp; simp [importOp, h, hp]
+
+/-! ## EnvOp -/
+
+/-- env stores exactly the variables matching include and not exclude under `<path>.Env`:
+    for an environment of distinct names (no `=`, `.`, trailing index group) EnvOp succeeds and
+    afterwards `<path>.Env.<name>` holds the value as a string leaf iff `incl name ∧ ¬ excl name`
+    (otherwise what was there before), and every key-only path that diverges from the stored
+    keys is unchanged.  `envEntries env` are the `name=value` strings of os.Environ(). -/
+theorem env_exact (incl excl : String → Bool) (path : String) (hp : path = "" ∨ PathOk path)
+    (env : List (String × String)) (data : AMap Node)
+    (hok : ∀ p ∈ env, NameOk p.1) (hd : env.Pairwise (fun p p' => p.1 ≠ p'.1)) :
+    ∃ d', envOp incl excl path (envEntries env) data = .ok d' ∧
+      (∀ p ∈ env, lookup d' (envKey path p.1) =
+        if sel incl excl p.1 then some (.leaf ⟨"string", p.2⟩) else lookup data (envKey path p.1)) ∧
+      (∀ q, PathOk q →
+        (∀ p ∈ env, sel incl excl p.1 = true →
+          ¬ splitPath (envKey path p.1) <+: splitPath q ∧ ¬ splitPath q <+: splitPath (envKey path p.1)) →
+        lookup d' q = lookup data q) :=
+  envOp_spec incl excl path hp env data hok hd
+
+/-- `sel` is "matches include and not exclude"; `envKey` is `<path>.Env.<name>` -/
+theorem env_sel_key (incl excl : String → Bool) (path n : String) :
+    (sel incl excl n = true ↔ incl n = true ∧ excl n = false) ∧
+    envKey "" n = "Env." ++ n ∧ (path ≠ "" → envKey path n = path ++ "." ++ ("Env." ++ n)) := by
+  refine ⟨by simp [sel], by simp [envKey, toPath], fun h => by simp [envKey, toPath, h]⟩
+
+/-- an included entry without `=` is the index-out-of-range panic of `parts[1]` (os.Environ()
+    never yields one) -/
+theorem env_no_equals_panics (incl excl : String → Bool) (path e : String) (rest : List String)
+    (data : AMap Node) (h : splitEnv e.toList = none) (hs : (incl e && !excl e) = true) :
+    envOp incl excl path (e :: rest) data = .panic := by
+  simp [envOp, h, hs]
 
 /-! ## ExportOp -/
 
@@ -296,27 +346,27 @@ def CodecRoundTrips (enc : AMap Node → List Nat) (dec : List Nat → Option (A
 
 /-- Exporting the container at `p` as YAML and importing the written bytes at `q` yields the
     subtree up to the codec's normalisation (same for JSON, by symmetry of `Codecs`). -/
-theorem import_export_roundtrip_partial (r : String → Option String) (lenient : String → String)
+theorem import_export_roundtrip (r : String → Option String) (lenient : String → String)
     (cd : Codecs) (enc : AMap Node → List Nat) (norm : AMap Node → AMap Node)
     (hc : CodecRoundTrips enc cd.yaml norm)
     (data sub : AMap Node) (p : ValOrRef) (q : String)
-    (hsub : lookup data (p.resolve r data) = some (.cont sub)) (hq : PathOk (lenient q)) :
+    (hsub : lookup data (p.resolve r data) = some (.cont sub)) (hq : lenient q ≠ "") :
     exportOp r "yaml" (some p) true data = (false, true, some (.doc .yaml sub)) ∧
     lookup (importOp cd lenient (some (enc sub)) "yaml" q data).1 (lenient q) = some (.cont (norm sub)) := by
   constructor
   · simp [exportOp, hsub, Format.ofString, Target.of, exportDecision]
-  · simp [importOp, toValue, hc sub, hq.1, lookup_addValueAt_self _ _ hq]
+  · simp [importOp, toValue, hc sub, hq, lookup_addValueAt_self' _ _ hq]
 
-theorem import_export_roundtrip_json_partial (r : String → Option String) (lenient : String → String)
+theorem import_export_roundtrip_json (r : String → Option String) (lenient : String → String)
     (cd : Codecs) (enc : AMap Node → List Nat) (norm : AMap Node → AMap Node)
     (hc : CodecRoundTrips enc cd.json norm)
     (data sub : AMap Node) (p : ValOrRef) (q : String)
-    (hsub : lookup data (p.resolve r data) = some (.cont sub)) (hq : PathOk (lenient q)) :
+    (hsub : lookup data (p.resolve r data) = some (.cont sub)) (hq : lenient q ≠ "") :
     exportOp r "json" (some p) true data = (false, true, some (.doc .json sub)) ∧
     lookup (importOp cd lenient (some (enc sub)) "json" q data).1 (lenient q) = some (.cont (norm sub)) := by
   constructor
   · simp [exportOp, hsub, Format.ofString, Target.of, exportDecision]
-  · simp [importOp, toValue, hc sub, hq.1, lookup_addValueAt_self _ _ hq]
+  · simp [importOp, toValue, hc sub, hq, lookup_addValueAt_self' _ _ hq]
 
 /-! ## lenient rendering -/
 
@@ -390,6 +440,13 @@ theorem nonvacuous_set :
     setOp mergeContainers exData (some exPayload) "a" (some "replace") =
       .ok [("a", .cont exPayload), ("k", .leaf ⟨"bool", "true"⟩)] := by
   decide
+
+theorem nonvacuous_env :
+    envOp (fun n => n == "A" || n == "B") (fun n => n == "B") "p" (envEntries [("A", "1"), ("B", "2"), ("C", "x=y")]) [] =
+      .ok [("p", .cont [("Env", .cont [("A", .leaf ⟨"string", "1"⟩)])])] ∧
+    NameOk "A" ∧ PathOk "p" := by
+  refine ⟨by decide +kernel, ⟨by decide, by decide, by decide⟩, ⟨by decide, ?_⟩⟩
+  intro s hs; revert s hs; decide
 
 theorem nonvacuous_lenient : possiblyTemplate "x {{ .a }}" = true ∧ possiblyTemplate "{{ open" = false ∧
     possiblyTemplate "}} {{" = false ∧ indexOf2 '{' '{' "a { b } c".toList = none := by decide
